@@ -1522,7 +1522,7 @@ class SSHConnection(SSHPacketHandler, asyncio.Protocol):
         raise KeyExchangeFailed(
             f'No matching {alg_type} algorithm found, sent '
             f'{b",".join(local_algs).decode("ascii") or "<None>"} and received '
-            f'{b",".join(remote_algs).decode("ascii") or "<None>"}')
+            f'{b",".join(remote_algs).decode("ascii", "backslashreplace") or "<None>"}')
 
     def _get_extra_kex_algs(self) -> List[bytes]:
         """Return the extra kex algs to add"""
